@@ -164,6 +164,9 @@ class Engine:
         :param product: product to price
         :param rmse: root-mean square error
         """
+        if self.configuration.initial_level > self.configuration.maximum_level:
+            raise ValueError("initial_level must not exceed maximum_level")
+
         self.initialisation(product)
 
         for path_manager in self.path_managers:
